@@ -14,7 +14,7 @@ from concurrent.futures import ProcessPoolExecutor
 from . import build
 
 VERIF = build.VERIF
-if build.REPO == '/repo':
+if build.REPO == '/repo' and not build.COV:
     EVID = os.path.join(VERIF, 'evidence')
     REPLAYS = os.path.join(VERIF, 'replays')
     LOGS = os.path.join(VERIF, 'logs')
